@@ -116,9 +116,18 @@ public:
                 m_hashes.resize(kbest);
                 m_tables.resize(cat_dims(kbest, tdims()));
 
+                // NB: the selected feature values are stored in increasing order of their hashes (same as the bins),
+                //     as required by the binary search used at prediction time!
+                auto bins_kbest = std::vector<tensor_size_t>(static_cast<size_t>(kbest));
                 for (tensor_size_t fv = 0; fv < kbest; ++fv)
                 {
-                    const auto bin     = mapping[static_cast<size_t>(fv)].second;
+                    bins_kbest[static_cast<size_t>(fv)] = mapping[static_cast<size_t>(fv)].second;
+                }
+                std::sort(bins_kbest.begin(), bins_kbest.end());
+
+                for (tensor_size_t fv = 0; fv < kbest; ++fv)
+                {
+                    const auto bin     = bins_kbest[static_cast<size_t>(fv)];
                     m_hashes(fv)       = hashes(bin);
                     m_tables.array(fv) = r1(bin) / x0(bin);
                 }
